@@ -48,3 +48,4 @@ contract('ikesacontroller.IkeSaController._get_ike_sa_by_spi', params={'spi': By
 # the IKE_SA-level contract of process_message as seen from the controller (proved in c_ikesa_flow.py)
 spec('table_distinct', {'l': List(S)}, Bool,
      'forall(lambda i, j: implies(0 <= i and i < j and j < len(l), l[i] != l[j]))')
+
